@@ -232,7 +232,7 @@ func TestC15(t *testing.T) {
 		"worklist orders are sampled through Go's map iteration order, not enumerated"}
 	defer rec.Flush()
 	replayKnown(t, "C15")
-	rapidSetup(env.Pick(300, 6000), 15)
+	rapidSetup(env.Pick(2400, 24000), 15)
 	rapid.Check(t, func(rt *rapid.T) {
 		prog := gogen.Generate(rt, c15Profile(rt))
 		files := map[string]string{"main.go": prog.Main, "prelude.go": gogen.AnalysedPrelude}
